@@ -154,3 +154,41 @@ package analysis
 //@ func AnalyzeOneUnit(unit, extraPredicates)
 //@   trusted
 //@   modifies extraPredicates
+
+// ---- C04: a rule passes the binding check only if every variable it mentions receives a value -----------------
+// A variable is accounted for when a positive atom / constant equality / mode declaration bound it (boundVars),
+// when it is unified with a constant or with such a variable, or when it is a HEAD variable defined by the
+// transform (the transform runs after the body, so it cannot supply a value to a body literal).
+//@ spec func unifiedOK(uf unionfind.UnionFind, v ast.Variable, bound map[ast.Variable]bool) bool =
+//@      uf.Get(v) != nil && (uf.Get(v) is ast.Constant || (uf.Get(v) is ast.Variable && (uf.Get(v) as ast.Variable) in bound))
+//@ spec func varOK(v ast.Variable, bound map[ast.Variable]bool, head map[ast.Variable]bool, tdefs map[ast.Variable]bool, uf unionfind.UnionFind) bool =
+//@      bound[v] || (head[v] && tdefs[v]) || unifiedOK(uf, v, bound)
+
+//@ func (a *Analyzer) CheckRule(clause)
+//@   requires a != nil
+//@   opt nosafety
+//@   loop 2 invariant forall k int, v ast.Variable :: 0 <= k && k < rangeindex#2 + 1 && ast.occurs(clause.Premises[k], v) ==> seenVars[v]
+//@   loop 2 atback clause.Premises[rangeindex#2] is ast.Ineq ==> (forall v ast.Variable :: ast.occurs(clause.Premises[rangeindex#2], v) ==> boundVars[v] || unifiedOK(uf, v, boundVars))
+//@   loop 8 invariant forall v ast.Variable :: v in seen ==> boundVars[v] || unifiedOK(uf, v, boundVars)
+//@   guard return in loop 8: err != nil
+//@   loop 10 invariant forall v ast.Variable :: v in seen ==> varOK(v, boundVars, headVars, transformVarDefs, uf)
+//@   loop 10 atexit forall k int, v ast.Variable :: 0 <= k && k < len(clause.Premises) && ast.occurs(clause.Premises[k], v) ==> varOK(v, boundVars, headVars, transformVarDefs, uf)
+//@   guard return in loop 10: err != nil
+
+// Helpers of the binding check (frames; unifyModes indexes every mode by the positions of the first: equal lengths
+// are the caller's obligation and are not checked here).
+//@ func unifyModes(modes)
+//@   opt nosafety
+//@   modifies nothing
+
+//@ func variablesForArgMode(atom, mode, mask)
+//@   opt nosafety
+//@   modifies nothing
+
+//@ func addTransformVars(transform, vardefs, varuse)
+//@   opt nosafety
+//@   requires vardefs != nil && varuse != nil
+//@   modifies vardefs, varuse
+//@   ensures forall v ast.Variable :: old(vardefs[v]) ==> vardefs[v]
+//@   loop 1 invariant forall v ast.Variable :: old(vardefs[v]) ==> vardefs[v]
+//@   loop 2 invariant forall v ast.Variable :: old(vardefs[v]) ==> vardefs[v]
